@@ -94,10 +94,13 @@ def horner_scale(poly, tl, idx):
 
 
 # ---------------------------------------------------------------- function coefficients
-def make_func(params, defaults, has_kw, log):
-    """build `def f(<params with defaults>, **kw)` that records what it was called with"""
+def make_func(params, defaults, has_kw, log, kwonly_from=None):
+    """build `def f(<params with defaults>, **kw)` that records what it was called with;
+    parameters from index `kwonly_from` on are keyword-only"""
     parts = []
     for i, p in enumerate(params):
+        if kwonly_from is not None and i == kwonly_from:
+            parts.append("*")
         parts.append(p if i == 0 or p not in defaults else f"{p}={defaults[p]!r}")
     if has_kw:
         parts.append("**kw")
@@ -115,7 +118,7 @@ def func_cases(rng, count):
     names = ["w", "phase", "amp", "args", "k"]
     out = []
     for _ in range(count):
-        shape = str(rng.choice(["t_args", "named", "named_kw", "kw_only", "t_args_extra", "x_args", "t_only"]))
+        shape = str(rng.choice(["t_args", "named", "named_kw", "kw_only", "t_args_extra", "x_args", "t_only", "named_kwonly", "named_kwonly"]))
         has_kw = shape in ("named_kw", "kw_only")
         if shape == "t_args":
             params = ["t", "args"]
@@ -128,11 +131,14 @@ def func_cases(rng, count):
         else:
             params = ["t"] + [str(x) for x in rng.permutation(["w", "phase", "amp"])[: int(rng.integers(1, 4))]]
         defaults = {p: -1 for p in params[1:]}
+        kwonly_from = None
+        if shape == "named_kwonly" and len(params) >= 2:
+            kwonly_from = int(rng.integers(1, len(params)))
         style = str(rng.choice(["auto", "pythonic", "dict"]))
         mk = lambda: [[str(k), int(rng.integers(0, 50))] for k in rng.permutation(names)[: int(rng.integers(0, 4))]]
         args, dargs, kwargs = mk(), mk(), mk()
         out.append({"params": params, "hasKw": has_kw, "style": style, "args": args, "dargs": dargs, "kwargs": kwargs,
-                    "_defaults": defaults, "_shape": shape})
+                    "_defaults": defaults, "_shape": shape, "_kwonly_from": kwonly_from})
     return out
 
 
@@ -142,7 +148,7 @@ def run_func_case(case):
     style = case["style"]
     params = case["params"]
     pyth_expected_dict = False
-    f = make_func(params, case["_defaults"], case["hasKw"], log)
+    f = make_func(params, case["_defaults"], case["hasKw"], log, case.get("_kwonly_from"))
     # a dict-style call hands the dictionary as the second positional parameter
     args = dict((k, v) for k, v in case["args"])
     c = FunctionCoefficient(f, dict(args), style=style)
@@ -363,8 +369,11 @@ def run(tier, seed, replay):
 
     def f_mixed(t, w, **kw):
         return w * t + kw.get("phase", 0.25)
+
+    def f_kwonly(t, w, *, phase=0.25):
+        return w * t + phase
     for f, ref in ((f_named, lambda t, w, p: np.exp(1j * (w * t + p))), (f_dict, lambda t, w, p: w * t + p),
-                   (f_kw, lambda t, w, p: w * t + p), (f_mixed, lambda t, w, p: w * t + p)):
+                   (f_kw, lambda t, w, p: w * t + p), (f_mixed, lambda t, w, p: w * t + p), (f_kwonly, lambda t, w, p: w * t + p)):
         for style in (None, "auto", "pythonic", "dict"):
             if (f is f_dict) != (style == "dict" or (style in (None, "auto") and f is f_dict)):
                 if f is f_dict or style == "dict":
